@@ -3,6 +3,7 @@ package props
 import (
 	"bytes"
 	"fmt"
+	"math"
 	"sort"
 	"sync"
 
@@ -155,6 +156,48 @@ func c30Ranges() *explore.Scenario {
 								r.Violate("C30|range|Range", "Range(%d,%d) = %d outside [%d,%d]", lo, hi, v, clo, hi)
 								d = 16
 							}
+						}
+					}
+				}
+				// the ends of the int range (span arithmetic must not overflow into a panic or out of range)
+				ext := []int{math.MinInt, math.MinInt + 1, -1, 0, 1, 2, 40, math.MaxInt - 1, math.MaxInt}
+				for _, lo := range ext {
+					for _, hi := range ext {
+						clo := lo
+						if clo < 0 {
+							clo = 0
+						}
+						for d := 0; d < 8; d++ {
+							var v int
+							if pm := catch(func() { v = p.Range(lo, hi) }); pm != "" {
+								r.Violate("C30|range|Range-panic", "Range(%d,%d) panicked: %s", lo, hi, truncStr(pm, 120))
+								break
+							}
+							n++
+							if hi < clo {
+								if v != clo {
+									r.Violate("C30|range|Range-empty", "Range(%d,%d) = %d, want clamped minimum %d", lo, hi, v, clo)
+									break
+								}
+							} else if v < clo || v > hi {
+								r.Violate("C30|range|Range", "Range(%d,%d) = %d outside [%d,%d]", lo, hi, v, clo, hi)
+								break
+							}
+						}
+					}
+				}
+				for _, m := range []int{math.MinInt, math.MinInt + 1, math.MaxInt - 1, math.MaxInt} {
+					for d := 0; d < 8; d++ {
+						var v int
+						var v64 int64
+						if pm := catch(func() { v = p.Intn(m); v64 = p.Int63n(int64(m)) }); pm != "" {
+							r.Violate("C30|range|Intn-panic", "Intn/Int63n(%d) panicked: %s", m, truncStr(pm, 120))
+							break
+						}
+						n += 2
+						if (m <= 0 && (v != 0 || v64 != 0)) || (m > 0 && (v < 0 || v >= m || v64 < 0 || v64 >= int64(m))) {
+							r.Violate("C30|range|Intn-extreme", "Intn(%d) = %d, Int63n = %d", m, v, v64)
+							break
 						}
 					}
 				}
@@ -329,7 +372,7 @@ func init() {
 	register(&Prop{ID: "C30", Level: "model_checking", Variant: "B", Scenarios: c30Scenarios,
 		RaceScenarios: func(thorough bool) []*explore.Scenario { return []*explore.Scenario{c30Concurrent(0)} },
 		Run: func(c *explore.Check, thorough bool) {
-			c.Rule = "256 enumerated seeds x {unsalted, 3 salts}: two instances, different chunking, equality with an independent SHAKE256(seed); Intn/Int63n on n in [-3,300] u {2^k,2^k+-1}, Range on [-3,40]^2, FlipWeightedCoin on weight corners, 8 seeds x 16-256 draws each; concurrency: every schedule (<=2 preemptions quick, unbounded with happens-before pruning thorough) of 3 threads x 2 draws (Read 8/3/0/5, Uint64, Intn) over a 4^3 program menu on one prng - the chunks handed out must be disjoint contiguous pieces of the sequential stream. distinct = (programs, stream layout)"
+			c.Rule = "256 enumerated seeds x {unsalted, 3 salts}: two instances, different chunking, equality with an independent SHAKE256(seed); Intn/Int63n on n in [-3,300] u {2^k,2^k+-1}, Range on [-3,40]^2 and on the 9x9 grid of int extremes {MinInt, MinInt+1, -1, 0, 1, 2, 40, MaxInt-1, MaxInt} (no panic, in range), Intn/Int63n at the int extremes, FlipWeightedCoin on weight corners, 8 seeds x 16-256 draws each; concurrency: every schedule (<=2 preemptions quick, unbounded with happens-before pruning thorough) of 3 threads x 2 draws (Read 8/3/0/5, Uint64, Intn) over a 4^3 program menu on one prng - the chunks handed out must be disjoint contiguous pieces of the sequential stream. distinct = (programs, stream layout)"
 			c.Assumptions = []string{"scheduling points are the prng mutex operations; the SHAKE state itself is not interleaved below that (a draw that bypasses the mutex is observed as an overlapping/non-contiguous chunk only if a schedule point separates its parts; the free-running -race pass covers the rest)"}
 			runAll(c, c30Scenarios(thorough), 0)
 			attachRacePass(c)
